@@ -92,6 +92,10 @@ impl SnmpPriv for DesKey {
         usm: &'b UsmParameters<'b>,
     ) -> SnmpResult<ScopedPdu<'c>> {
         // Get IV
+        if usm.privacy_params.len() != SALT_SIZE {
+            // Malformed salt
+            return Err(SnmpError::InvalidData);
+        }
         let mut iv = [0u8; 8];
         for (idx, (x, y)) in usm
             .privacy_params
